@@ -21,10 +21,10 @@ Modes == {"R", "S", "G", "H"}
 
 S0(n, aimp, aexp) ==
     [n |-> n, aimp |-> aimp, aexp |-> aexp, pc |-> "run", k |-> 0, subs |-> <<>>, cur |-> 0, sets |-> {}, nsets |-> 0, wset |-> 0,
-     ret |-> 0, canc |-> 0, cancelReq |-> FALSE, waits |-> 0, modes |-> <<>>, cancelAt |-> 0, ended |-> FALSE, bad |-> ""]
+     ret |-> 0, canc |-> 0, cancelReq |-> FALSE, waits |-> 0, modes |-> <<>>, cancelAt |-> 0, ended |-> FALSE, lent |-> {}, yields |-> 0, bad |-> ""]
 
 \* what the guest does (the rest -- event -- is the host's; answer and task.end are the export / callback returning)
-GuestEvents == {"import.call", "set.new", "set.drop", "join", "subtask.cancel", "subtask.drop", "task.return", "task.cancel"}
+GuestEvents == {"import.call", "set.new", "set.drop", "join", "subtask.cancel", "subtask.drop", "task.return", "task.cancel", "borrow.drop"}
 Bad(St, msg) == IF St.bad = "" THEN [St EXCEPT !.bad = msg] ELSE St
 Need(St, c, msg) == IF c THEN St ELSE Bad(St, msg)
 IsSub(St, h) == h \in 1..Len(St.subs)
@@ -71,11 +71,14 @@ Apply(St, e) ==
                                        "an async export finished without exactly one task.return or task.cancel (C08)"),
                                   St.cur = 0, "the task finished while an import call was still in flight (C08)")
                     IN [g EXCEPT !.pc = "done"]
-               [] OTHER -> Need(St, St.pc = "run", "yield while suspended (harness)"))
+               [] OTHER -> [Need(St, St.pc = "run", "yield while suspended (harness)") EXCEPT !.pc = "yielded", !.waits = @ + 1, !.yields = @ + 1])
       [] e.ev = "event" ->
             IF e.kind = "cancel" THEN
-                LET g == Need(Need(St, St.pc = "wait", "event delivered to a task that does not wait (harness)"), St.aexp /\ ~St.cancelReq, "second cancellation request (harness)")
+                LET g == Need(Need(St, St.pc \in {"wait", "yielded"}, "event delivered to a task that is not suspended (harness)"),
+                              St.aexp /\ ~St.cancelReq, "second cancellation request (harness)")
                 IN [g EXCEPT !.cancelReq = TRUE, !.pc = "run", !.cancelAt = St.waits]
+            ELSE IF e.kind = "none" THEN
+                [Need(St, St.pc = "yielded", "the task was re-entered without an event although it had not yielded (harness)") EXCEPT !.pc = "run"]
             ELSE
                 LET h == e.h
                     ok == St.pc = "wait" /\ IsSub(St, h) /\ St.subs[h].set = St.wset /\ Pending(St.subs[h])
@@ -99,16 +102,22 @@ Apply(St, e) ==
                 g2 == Need(g1, ok => St.subs[e.h].set = 0, "subtask.drop while the subtask is still a member of a waitable set (C08)")
                 g3 == Need(g2, ok => ~Pending(St.subs[e.h]), "subtask.drop of a subtask that has neither returned nor been cancelled (C08)")
             IN IF g3.bad # "" THEN g3 ELSE [g3 EXCEPT !.subs[e.h].dropped = TRUE, !.cur = IF @ = e.h THEN 0 ELSE @]
+      [] e.ev = "borrow.lend" -> [St EXCEPT !.lent = {e.hs[i] : i \in 1..Len(e.hs)}]
+      [] e.ev = "borrow.drop" ->
+            [Need(St, e.h \in St.lent, "resource-drop of a handle that was not lent to this call, or was dropped already (C08)") EXCEPT !.lent = @ \ {e.h}]
       [] e.ev = "task.return" ->
             LET g1 == Need(St, St.aexp, "task.return from a synchronous export (C08)")
                 g2 == Need(g1, St.ret = 0 /\ St.canc = 0, "task.return after the task had already returned or been cancelled: the result must be reported exactly once (C08)")
                 g3 == Need(g2, St.k = St.n /\ St.cur = 0, "task.return before the body's import calls had finished (harness)")
                 g4 == Need(g3, e.errors = 0, "the values passed to task.return are not the canonical encoding of the export's result (C08)")
-            IN [g4 EXCEPT !.ret = 1]
+                g5 == Need(g4, St.lent = {}, "task.return while a handle borrowed for the call is still held: the synchronous binding drops it before returning, "
+                                             \o "and the component model traps (C08)")
+            IN [g5 EXCEPT !.ret = 1]
       [] e.ev = "task.cancel" ->
             LET g1 == Need(St, St.cancelReq, "task.cancel without a cancellation request (C08)")
                 g2 == Need(g1, St.ret = 0 /\ St.canc = 0, "task.cancel after the task had already returned or been cancelled: cancellation must be signalled exactly once (C08)")
-            IN [g2 EXCEPT !.canc = 1]
+                g3 == Need(g2, St.lent = {}, "task.cancel while a handle borrowed for the call is still held (C08)")
+            IN [g3 EXCEPT !.canc = 1]
       [] e.ev = "task.end" ->
             LET g1 == Need(St, IF St.aexp THEN St.pc = "done" ELSE (St.pc = "run" /\ St.cur = 0), "the export returned to the host while the task was suspended (C08)")
                 g2 == Need(g1, \A h \in 1..Len(St.subs) : St.subs[h].dropped, "a subtask handle was never dropped (C08)")
@@ -131,7 +140,9 @@ Candidates(St) ==
     \cup {[ev |-> "join", h |-> h, set |-> s] : h \in 1..Len(St.subs), s \in St.sets \cup {0}}
     \cup {[ev |-> "answer", code |-> "wait", set |-> s] : s \in St.sets}
     \cup {[ev |-> "answer", code |-> "exit", set |-> 0]}
-    \cup (IF St.pc = "wait" THEN {[ev |-> "event", kind |-> "cancel", h |-> 0, status |-> 0, checked |-> FALSE, errors |-> 0]} ELSE {})
+    \cup (IF St.waits < 3 THEN {[ev |-> "answer", code |-> "yield", set |-> 0]} ELSE {})
+    \cup {[ev |-> "event", kind |-> k, h |-> 0, status |-> 0, checked |-> FALSE, errors |-> 0] : k \in {"cancel", "none"}}
+    \cup {[ev |-> "borrow.drop", h |-> h] : h \in St.lent}
     \cup {[ev |-> "event", kind |-> "subtask", h |-> h, status |-> st, checked |-> c, errors |-> 0] : h \in 1..Len(St.subs), st \in {STARTED, RETURNED}, c \in BOOLEAN}
     \cup {[ev |-> "subtask.cancel", h |-> h, status |-> st] : h \in 1..Len(St.subs), st \in {START_CANCELLED, RETURN_CANCELLED}}
     \cup {[ev |-> "subtask.drop", h |-> h] : h \in 1..Len(St.subs)}
@@ -142,6 +153,7 @@ OneOutcome(St) == St.ret + St.canc <= 1
 DoneMeansReported(St) == (St.pc = "done" /\ St.aexp) => St.ret + St.canc = 1
 StartedMeansRead(St) == \A h \in 1..Len(St.subs) : St.subs[h].st \in {STARTED, RETURNED, RETURN_CANCELLED} => St.subs[h].checked
 NeverReadIfCancelledBeforeStart(St) == \A h \in 1..Len(St.subs) : St.subs[h].st = START_CANCELLED => ~St.subs[h].checked
+NoBorrowOutlivesTheCall(St) == (St.ret = 1 \/ St.canc = 1) => St.lent = {}
 EndedClean(St) == St.ended => /\ \A h \in 1..Len(St.subs) : St.subs[h].dropped /\ St.subs[h].set = 0 /\ ~Pending(St.subs[h])
                               /\ St.sets = {}
                               /\ St.aexp => (St.canc = 1) = St.cancelReq
